@@ -226,6 +226,12 @@ class Machine:
     # ---- calls -----------------------------------------------------------------------------------
     def resolve(self, callee):
         key = normalize_callee(callee)
+        cands = self.index.get("?" + key)
+        if cands:
+            for f in cands:
+                pty = f.params[0][1].lstrip("&").replace("mut ", "").strip() if f.params else ""
+                if pty and (pty in callee or "::".join(pty.split("::")[-2:]) in callee):
+                    return key, f
         return key, self.index.get(key)
 
     def call(self, callee, args):
@@ -428,6 +434,8 @@ class Machine:
                     if "promoted[" in name and c[1].endswith(name):
                         return self.run(f, [])
                 raise Unsupported("promoted constant " + c[1])
+            if "libc::" in c[1] and c[1].rsplit("::", 1)[-1] in LIBC_CONSTS:
+                return LIBC_CONSTS[c[1].rsplit("::", 1)[-1]]
             plain = re.sub(r"::<[^<>]*>", "", c[1])
             if re.match(r"^[\w:]+$", plain):
                 # a named constant of the crate (const ITEM: T = {..} in the dump)
@@ -601,6 +609,10 @@ class Machine:
                 return z3.Xor(_zb(a), _zb(b))
             return a ^ b
         raise Unsupported("binop %s" % op)
+
+
+# errno values of the target the MIR was built for (x86_64-unknown-linux-gnu)
+LIBC_CONSTS = {"ENOENT": 2, "EACCES": 13, "ENOTDIR": 20, "ELOOP": 40, "EPERM": 1, "EEXIST": 17, "E2BIG": 7}
 
 
 def _z(v):
